@@ -22,3 +22,14 @@ func verifSynced(fname string) {
 		VerifPointHook("synced:" + fname)
 	}
 }
+
+// VerifFailHook, when set, is asked before every write of the file store; a non-nil answer makes that
+// write fail with it (the write is not performed).
+var VerifFailHook func(label string) error
+
+func verifFail(label string) error {
+	if VerifFailHook != nil {
+		return VerifFailHook(label)
+	}
+	return nil
+}
